@@ -328,3 +328,100 @@ pub fn special_ext_tasks() -> Vec<ExtTask> {
         mk("spec: p. spec: q <-> p.", true, "p. q :- p.", "output: p/0. output: q/0.", ""),
     ]
 }
+
+/// Grammar-generated programs over the vocabulary in/1, in2/1 (inputs), out/1, out0/0 (outputs),
+/// aux/1, aux/0 (private), placeholder n: every head kind x every body condition, private
+/// definitions used positively / negatively, facts, undefined private predicates.
+pub fn gen_programs() -> Vec<String> {
+    let conds = ["", ", X > 0", ", X != a", ", X <= n", ", not in(X+1)", ", not not in(X)", ", in2(X)", ", not in2(X)", ", X = 0..1"];
+    let mut v: Vec<String> = vec![];
+    for c in conds {
+        v.push(format!("out(X) :- in(X){c}."));
+        v.push(format!("{{out(X)}} :- in(X){c}."));
+        v.push(format!("out0 :- in(X){c}."));
+        v.push(format!("out(X) :- in(X). :- in(X){c}, X > 1."));
+    }
+    for c in &conds[0..6] {
+        for use_ in ["out(X) :- aux(X).", "out(X) :- in(X), not aux(X).", "out(X) :- in(X), aux(X), X > 0."] {
+            v.push(format!("aux(X) :- in(X){c}. {use_}"));
+        }
+        v.push(format!("aux :- in(X){c}. out(X) :- in(X), not aux."));
+    }
+    for f in ["out(1).", "out(0..1).", "out(a). out(X) :- in(X).", "out0.", "{out0}.", "out(X) :- in(X), not aux(X).", "out(X) :- in(X), aux.", "out0 :- not aux. out(X) :- in(X)."] {
+        v.push(f.to_string());
+    }
+    v
+}
+
+pub fn guide_for(l: &str, r: &str, extra_declarations: bool) -> String {
+    let both = format!("{l} {r}");
+    let mut g = String::from("input: in/1. output: out/1.");
+    if both.contains("in2") || extra_declarations {
+        g.push_str(" input: in2/1.");
+    }
+    if both.contains("out0") || extra_declarations {
+        g.push_str(" output: out0/0.");
+    }
+    if both.contains(" n.") || both.contains(" n,") || both.contains("..n") {
+        g.push_str(" input: n -> integer.");
+    }
+    g
+}
+
+pub fn gen_ext_tasks(quick: bool) -> Vec<ExtTask> {
+    let ps = gen_programs();
+    let mut out = vec![];
+    for (i, l) in ps.iter().enumerate() {
+        for (j, r) in ps.iter().enumerate() {
+            if quick && (i * 5 + j) % 2 != 0 {
+                continue;
+            }
+            out.push(ExtTask { left: l.clone(), left_is_spec: false, right: r.clone(), ug: guide_for(l, r, false), po: String::new() });
+            if (i + j) % 11 == 0 {
+                out.push(ExtTask { left: l.clone(), left_is_spec: false, right: r.clone(), ug: guide_for(l, r, true), po: String::new() });
+            }
+        }
+    }
+    out
+}
+
+/// Grammar-generated specifications: quantifier prefix x body shape x direction annotation,
+/// single formulas and forward/backward pairs, with and without an assumption.
+pub fn gen_specs() -> Vec<String> {
+    let bodies = [
+        "out(X) <-> in(X)", "out(X) -> in(X)", "in(X) -> out(X)", "out(X) <-> in(X) and X > 0", "out(X) or not in(X)", "not (out(X) and not in(X))",
+        "out(X) <-> in(X) and X != a", "in(X) and X > 1 -> out(X)", "out(X) <- in(X) and not in(X+1)",
+    ];
+    let mut v = vec![];
+    for pre in ["forall X", "exists X"] {
+        for b in bodies {
+            for d in ["", "(forward)", "(backward)"] {
+                v.push(format!("spec{d}: {pre} ({b})."));
+            }
+        }
+    }
+    for b in bodies {
+        v.push(format!("spec(forward): forall X ({b}). spec(backward): forall X (out(X) <-> in(X))."));
+        v.push(format!("assumption: forall X (in(X) -> X > 0). spec: forall X ({b})."));
+        v.push(format!("assumption(forward): exists X (in(X) and X > 0). spec: forall X ({b})."));
+    }
+    v
+}
+
+pub fn gen_spec_tasks(quick: bool) -> Vec<ExtTask> {
+    let specs = gen_specs();
+    let ps = gen_programs();
+    let mut out = vec![];
+    for (i, sp) in specs.iter().enumerate() {
+        for (j, r) in ps.iter().enumerate() {
+            if r.contains("out0") || r.contains("in2") {
+                continue;
+            }
+            if quick && (i + j) % 4 != 0 {
+                continue;
+            }
+            out.push(ExtTask { left: sp.clone(), left_is_spec: true, right: r.clone(), ug: guide_for("", r, false), po: String::new() });
+        }
+    }
+    out
+}
